@@ -38,10 +38,15 @@ def gen_case(rng):
 
     exprs = []
     for k in range(rng.randint(0, 6)):
+        # two byte intervals; the same offsets occur in both
+        iv = 0 if rng.random() < 0.6 else 1
+        off = 8 * rng.randrange(4) if rng.random() < 0.5 else 8 * k
+        if any(e[0] == iv and e[1] == off for e in exprs):
+            continue
         if rng.random() < 0.75:
-            exprs.append([0, 8 * k, [rng.choice(syms)]])
+            exprs.append([iv, off, [rng.choice(syms)]])
         else:
-            exprs.append([0, 8 * k, [rng.choice(syms), rng.choice(syms)]])
+            exprs.append([iv, off, [rng.choice(syms), rng.choice(syms)]])
     ver_ids = [2, 3, 4, 5, 6]
     entries = [[s, rng.choice(ver_ids)] for s in some(0.6)] if ff == "ELF" else []
     defs = [[1, rng.choice([1, 3])]] + [[i, rng.choice([0, 0, 2])] for i in ver_ids if rng.random() < 0.4]
@@ -92,12 +97,16 @@ def build(mod):
     _, bi = add_text_section(m, address=0x1000)
     code = add_code_block(bi, b"\x90" * 8)
     data = add_data_block(bi, b"\x00" * 64)
+    # a second byte interval in the same section, holding expressions at the same offsets
+    bi2 = gtirb.ByteInterval(contents=b"\x00" * (data.offset + 64), address=0x3000, section=bi.section)
+    gtirb.DataBlock(offset=0, size=data.offset + 64, byte_interval=bi2)
     S = {s: gtirb.Symbol("s%d" % s, payload=code, module=m) for s in mod["syms"]}
-    for _, off, ss in mod["exprs"]:
+    for iv, off, ss in mod["exprs"]:
+        tgt = bi if iv == 0 else bi2
         if len(ss) == 1:
-            bi.symbolic_expressions[data.offset + off] = gtirb.SymAddrConst(0, S[ss[0]])
+            tgt.symbolic_expressions[data.offset + off] = gtirb.SymAddrConst(0, S[ss[0]])
         else:
-            bi.symbolic_expressions[data.offset + off] = gtirb.SymAddrAddr(1, 0, S[ss[0]], S[ss[1]])
+            tgt.symbolic_expressions[data.offset + off] = gtirb.SymAddrAddr(1, 0, S[ss[0]], S[ss[1]])
     if mod["ff"] == "ELF":
         t = A.elf_symbol_info.get_or_insert(m)
         for s in mod["elfSymInfo"]:
@@ -147,8 +156,9 @@ def extract(mod0, m, S, F, code, data):
 
     bi = code.byte_interval
     exprs = []
-    for off, e in sorted(bi.symbolic_expressions.items()):
-        exprs.append([0, off - data.offset, [sid(y) for y in e.symbols]])
+    for iv, tgt in enumerate([bi] + [x for x in bi.section.byte_intervals if x is not bi]):
+        for off, e in sorted(tgt.symbolic_expressions.items()):
+            exprs.append([iv, off - data.offset, [sid(y) for y in e.symbols]])
     vers = A.elf_symbol_versions.get(m)
     defs, reqs, entries = vers if vers else ({}, {}, {})
     cfi_t = A.cfi_directives.get(m) or {}
@@ -255,6 +265,10 @@ def check_case(ctx, case, pending):
                     ctx.violation("C19:unused-library-kept", "library %s has no used version left but was kept" % lib, case)
             elif after_reqs.get(lib) != want:
                 ctx.violation("C19:required-versions", "library %s keeps versions %s, the used ones are %s" % (lib, sorted(after_reqs.get(lib, [])), sorted(want)), case)
+        # exactly the expressions that use a deleted symbol are gone, the others are where they were
+        want_exprs = sorted(e for e in mod["exprs"] if not any(x in deleted for x in e[2]))
+        if sorted(after["exprs"]) != want_exprs:
+            ctx.violation("C19:expressions", "expressions after the deletion %s, expected exactly those that use no deleted symbol %s" % (sorted(after["exprs"])[:6], want_exprs[:6]), case)
         # only that
         for s in mod["syms"]:
             if s not in deleted and s not in after["syms"]:
